@@ -568,8 +568,9 @@ class World:
                     else:
                         for e in rem:
                             c.check(e.time == r.deadline, 'removal_at_timeout_not_before', sig=[r.kind, how])
-            elif r.deadline is not None and not r.manual:
-                # not yet reported => its time-out has not been reached
+            elif r.deadline is not None and not r.manual and not getattr(self, 'stopped', False):
+                # not yet reported => its time-out has not been reached (after SearchManager.stop() the library owes
+                # nothing any more: stop() cancels the timers of pending requests, see C16 'stop is final')
                 key = ('due', i, id(now), quiescent)
                 if key not in once:
                     once.add(key)
@@ -922,6 +923,7 @@ def h_wishlist_bg(c, wmode='server', picker=False, position='low', items=2):
     exc, _ = w.run_op(w.mgr.stop(), 'stop')
     if exc is not None:
         raise symex.HarnessError(f'stop raised {exc!r}')
+    w.stopped = True
     w.observe()
     w.finish()
 
